@@ -27,8 +27,14 @@ extern int mpt_path_set(MPT_STRUCT(path) *path, const char *val, int len)
 	
 	if (!val) {
 		vlen = add = 0;
-	} else {
-		vlen = (len < 0) ? strlen(val) + 1 : (size_t) len;
+	}
+	/* string terminator is part of the data */
+	else if (len < 0) {
+		vlen = strlen(val) + 1;
+		add = 0;
+	}
+	else {
+		vlen = len;
 	}
 	
 	while (plen < vlen) {
